@@ -34,7 +34,7 @@ def run(chk, program, tier):
     fn, ex = stages['_call_decode_function']
     writes = [(i, e) for i, e in enumerate(ex.events) if e[0] == 'expr' and e[2][0] == 'call' and e[2][1][0] == 'attr' and e[2][1][2] == 'write'
               and e[2][1][1][0] == 'attr' and e[2][1][1][2] == 'dump_TextIOWrapper']
-    chk.check(len(writes) == 1, 'DUMP-GUARD', 'one-write-site', file=DEC, line=fn.lineno, func='_call_decode_function', expected=1, found=len(writes))
+    chk.anchor(len(writes) == 1, 'DUMP-GUARD', 'one-write-site', file=DEC, line=fn.lineno, func='_call_decode_function', expected=1, found=len(writes))
     if len(writes) != 1:
         return
     wi, we = writes[0]
